@@ -1152,9 +1152,69 @@ def rule_r4_depth(ctx: Ctx) -> None:
     ctx.check(True, "_serializable.*, _data_schema_builder, _data_type_builder", "%d loops scanned" % n_loops, "scan completed", "pydsdl/_serializable", nontrivial=False)
 
 
+def rule_r5_file_names(ctx: Ctx) -> None:
+    """the last clause of the property: arbitrary file names under a namespace directory.  Names that do not parse are R1/R2's
+    business (FileNameFormatError).  This rule is about names that parse and *coincide*: two files of one directory may spell
+    the same full name and version (a port-ID prefix on one of them, the legacy suffix next to the current one).  The entry
+    points' common tail is evaluated over an abstract file system holding such files, with the reading of the individual files
+    stubbed (every file yields a type of its own name and version) and `assert` statements evaluated: whatever happens must be
+    a type list or an InvalidDefinitionError."""
+    from ..absint import APath, Raised, call_fn, checking_asserts
+    from ..fold import Sym, Unfoldable
+    from . import c11
+    from . import reader_common as R
+    from .c15 import _prop
+
+    ctx.rule("C13.R5", "files of one directory whose names spell the same full name and version (port-ID prefix, legacy suffix): the common tail of read_namespace / read_files, evaluated over an abstract file system with the per-file reading stubbed and assertions evaluated, ends in a result or an InvalidDefinitionError - never an AssertionError", min_instances=2)
+    crf = ctx.func("_namespace._complete_read_function")
+    cons = ctx.func("_namespace._construct_dsdl_definitions_from_namespaces")
+    mod = crf.module
+    worlds = {
+        "a port-ID prefix on one copy": ["/w/ns/A.1.0.dsdl", "/w/ns/sub/Foo.1.0.dsdl", "/w/ns/sub/7509.Foo.1.0.dsdl", "/w/ns/sub/Foo.1.1.dsdl"],
+        "legacy suffix next to the current one": ["/w/ns/A.1.0.dsdl", "/w/ns/sub/Foo.1.0.dsdl", "/w/ns/sub/Foo.1.0.uavcan"],
+        "no coinciding names (control)": ["/w/ns/A.1.0.dsdl", "/w/ns/sub/Foo.1.0.dsdl", "/w/ns/sub/Foo.1.1.dsdl"],
+    }
+    saved = list(APath.FS)
+    try:
+        for label, files in worlds.items():
+            APath.FS = list(files)
+            serial = [0]
+
+            def read_stub(targets: Any, lookups: Any, *a: Any, **k: Any) -> Any:
+                out = []
+                for t in list(targets):
+                    serial[0] += 1
+                    v = _prop(ctx, t, "version")
+                    # two files are two texts: the types differ in what the compatibility rules look at
+                    out.append(c11._definition(ctx, _prop(ctx, t, "full_name"), v[0], v[1], False, _prop(ctx, t, "fixed_port_id"), 64, True))
+                return Sym(direct=out, transitive=[])
+
+            hook = R._hook(ctx, mod, [], record=["read_definitions"], results={"read_definitions": read_stub, "dsdl_file_sort": lambda xs: list(xs), "file_sort": lambda xs: list(xs)})
+            try:
+                targets = call_fn(ctx, cons, [[APath("/w/ns")]], hook=hook, keep=tuple(mod.functions))
+            except (Raised, Unfoldable) as ex:
+                raise AnalysisError("%s: cannot evaluate over the abstract file system: %s" % (cons.short, ex))
+            outcome = "a result"
+            try:
+                with checking_asserts():
+                    call_fn(ctx, crf, [targets, [APath("/w/ns")], None], {"allow_unregulated_fixed_port_id": True, "strict": False}, hook=hook, keep=tuple(mod.functions))
+            except Raised as r:
+                outcome = r.cls_name
+            except Unfoldable as ex:
+                raise AnalysisError("%s: cannot evaluate over the abstract file system: %s" % (crf.short, ex))
+            ctx.count()
+            k = next((k for k in ctx.repo.all_classes().values() if k.name == outcome), None)
+            is_ide = k is not None and ctx.repo.is_subclass(k, ctx.cls("_error.InvalidDefinitionError"))
+            good = (outcome == "a result") if label.endswith("(control)") else (outcome == "a result" or is_ide)
+            ctx.check(good, crf.short, label, "reading a directory in which two files spell the same name and version ends in a result or an InvalidDefinitionError (found: %s)" % outcome, crf.where(), {"files": files, "outcome": outcome})
+    finally:
+        APath.FS = saved
+
+
 def run(ctx: Ctx) -> None:
     repo = ctx.repo
     ctx.attempt(rule_r4_depth, ctx)
+    ctx.attempt(rule_r5_file_names, ctx)
     g = CallGraph(repo)
     ctx.analysed["callgraph"] = g.stats()
     kinds = Kinds(ctx, g)
